@@ -939,6 +939,10 @@ func (s *Store[K, V]) Persist(version uint64, writer io.Writer) error {
 		defer s.mu.RUnlock(token)
 	}
 
+	// promotions may have left the protected region above its size until the next
+	// write; the lists are saved within their sizes
+	s.policy.demoteFromProtected()
+
 	meta := &StoreMeta{
 		Version:   version,
 		StartNano: s.timerwheel.clock.Start.UnixNano(),
